@@ -1,10 +1,54 @@
-(* Properties_C20.v — statements are added as the proofs land (see DESIGN.md). *)
+(* Properties_C20.v — C20: CBOR tags identify registered types and are never
+   silently dropped.  Statements only; proofs in TagProof.v (object layer);
+   the byte level — the encoder writes a token's tag head directly before the
+   item and the decoder folds it back into the token — is C02/C04
+   (rfc_enc / parse_item carry the tag of every node). *)
 From Coq Require Import List ZArith.
-Require Import Tok GoVal Marshal Unmarshal.
+Require Import Tok GoVal Marshal Unmarshal TagProof.
 Import ListNotations.
 Open Scope Z_scope.
 
-Example C20_model_runs :
-  unmarshal_top [] (Atlas [] 0) GAny [Tok (ArrOpen 1) None; Tok (Uint 18446744073709551615) None; Tok ArrClose None] =
-  UTDone 3 (VAny (Some (GSlice GAny, VSlice (Some [VAny (Some (GNum U64, VNum 18446744073709551615))])))).
-Proof. vm_compute. reflexivity. Qed.
+(* Every value of a type registered with a tag is emitted with exactly that tag on the first token of
+   its item.  [marshal_bare] is what every position — top level, struct field, map value, slice element,
+   pointer target, untyped slot — calls for the value, so the statement is position-independent. *)
+Theorem C20_registered_type_emits_its_tag : forall A f t v ts e tg,
+  is_unnamed_prim t = false -> atlas_get A t = Some e -> ae_tag e = Some tg ->
+  (match ae_kind e with EStruct _ | ETransform _ _ => True | _ => False end) ->
+  marshal_bare A f t v = MOk ts ->
+  exists v0 r, ts = Tok v0 (Some tg) :: r.
+Proof. exact tagged_type_emits_tag. Qed.
+Print Assumptions C20_registered_type_emits_its_tag.
+
+(* tags sit on the first token of an item and nowhere else: the stream is the flattening of a value tree *)
+Theorem C20_tags_only_on_item_heads : forall A f t v ts,
+  marshal A f t v = MOk ts -> exists n, ts = flatten n.
+Proof. exact tags_only_on_item_heads. Qed.
+
+(* untyped position, registered tag: the registered Go type is reconstructed *)
+Theorem C20_registered_tag_selects_type : forall E A f v tg r e,
+  atlas_by_tag A tg = Some e ->
+  unmarshal_any E A (S f) (Tok v (Some tg) :: r) =
+  ubind (unmarshal_bare E A f (ae_type e) (zero 50 E (ae_type e)) (Tok v (Some tg) :: r))
+        (fun x r' => UOk (VAny (Some (ae_type e, x))) r').
+Proof. exact registered_tag_reconstructs_type. Qed.
+
+(* untyped position, unregistered tag: an error on that token, not ignored *)
+Theorem C20_unregistered_tag_is_error : forall E A f v tg r,
+  atlas_by_tag A tg = None ->
+  unmarshal_any E A (S f) (Tok v (Some tg) :: r) = UErr (S (length r)).
+Proof. exact unregistered_tag_rejected. Qed.
+Theorem C20_unregistered_tag_is_error_top : forall E A f v tg r,
+  atlas_by_tag A tg = None -> atlas_get A GAny = None ->
+  unmarshal E A (S (S (S (S f)))) GAny (VAny None) (Tok v (Some tg) :: r) = UErr (S (length r)).
+Proof. exact untyped_target_unregistered_tag. Qed.
+Print Assumptions C20_unregistered_tag_is_error_top.
+
+(* kernel-evaluated: a tagged transform inside a slice inside an untyped slot, there and back *)
+Definition c20_A := Atlas [AE (GNamed 5 GStr) (Some 50) (ETransform 1 GStr)] 0.
+Example C20_tag_inside_untyped_slice :
+  marshal_top [] c20_A GAny (VAny (Some (GSlice GAny, VSlice (Some [VAny (Some (GNamed 5 GStr, GVStr [97]))])))) =
+  MOk [Tok (ArrOpen 1) None; Tok (Str [110; 58; 97]) (Some 50); Tok ArrClose None] /\
+  unmarshal_top [] c20_A GAny [Tok (ArrOpen 1) None; Tok (Str [110; 58; 97]) (Some 50); Tok ArrClose None] =
+  UTDone 3 (VAny (Some (GSlice GAny, VSlice (Some [VAny (Some (GNamed 5 GStr, GVStr [97]))])))) /\
+  unmarshal_top [] c20_A GAny [Tok (Str [97]) (Some 51)] = UTErr 1.
+Proof. vm_compute. repeat split; reflexivity. Qed.
